@@ -217,7 +217,10 @@ class Client:
             except Literal as inst:
                 block = self.__read_block(inst.value)
                 if quote_literals:
-                    block = self.__quote(block)
+                    # keep the line ending of a block that has one, for
+                    # servers that do not send another one after it
+                    eol = CRLF if block.endswith(CRLF) else b""
+                    block = self.__quote(block) + eol
                 resp += block
                 if not resp.endswith(CRLF):
                     resp += self.__read_line() + CRLF
@@ -705,12 +708,13 @@ class Client:
         :returns: the script's content on succes, None otherwise
         """
         code, data, content = self.__send_command(
-            "GETSCRIPT", [name.encode("utf-8")], withcontent=True
+            "GETSCRIPT", [name.encode("utf-8")], withcontent=True, quote_literals=True
         )
         if code == "OK":
-            lines = content.splitlines()
-            if self.__size_expr.match(lines[0]) is not None:
-                lines = lines[1:]
+            m = self.__quoted_expr.match(content)
+            if m is None:
+                return None
+            lines = self.__unquote(m.group(1)).splitlines()
             return "\n".join([line.decode("utf-8") for line in lines])
         return None
 
